@@ -1,1 +1,250 @@
-pub fn cmd_loop(_path: &str) { unimplemented!() }
+// Runs the REAL per-device loop (do_remapping_loop_one_device, through the cfg-guarded
+// remapping_loop::verif entry) against a scripted driver and records every driver call.
+//
+// The driver is the environment half of spec/Loop.tla: two queues of unread events, edge-triggered
+// readiness flags, a poll that reports the flagged devices / times out / is interrupted, and an
+// optional injected failure of the k-th call. A schedule (a behaviour of Loop.tla's environment,
+// printed by TLC) is advice about WHEN things arrive and how polls are answered; the driver follows
+// it as far as the real loop's calls allow and always stays a legal environment; what actually
+// happened is what gets logged, and that is what TLC validates (spec/LoopTrace.tla).
+// Next to each read the recorder logs what the REAL mapper answers to the event (a shadow Mapper that
+// lives as long as the loop, and a second one that is re-created at every tablet event): the
+// references C10 and C12 are relative to. No comparison is made here.
+use crate::j::*;
+use crate::keys::{Layout, KeyCode, Event};
+use crate::key_transforms::{Mapper, ResultingRepeat};
+use crate::remapping_loop::verif::{ScriptedDriver, VPoll, VNext, run_one_device};
+use serde_json::{json, Value};
+use std::collections::VecDeque;
+use std::io::Write;
+use std::time::{Duration, Instant};
+
+#[derive(Clone, Debug)]
+enum Lbl { ArrK(Option<Event>), ArrT(bool), PollDev(bool), PollTimeout, PollIntr, ReadK, ReadT }
+
+fn parse_labels(v: &Value) -> Vec<Lbl> {
+  v.as_array().unwrap().iter().map(|l| {
+    let (a, t, k, x) = (l["a"].as_str().unwrap_or(""), l["t"].as_str().unwrap_or(""), l["k"].as_str().unwrap_or(""), l["x"].as_str().unwrap_or(""));
+    match a {
+      "arrK" => if t == "E" { Lbl::ArrK(None) } else { Lbl::ArrK(Some(pev(&json!({"t": t, "k": k})).unwrap())) },
+      "arrT" => Lbl::ArrT(t == "On"),
+      "poll" => match t { "dev" => Lbl::PollDev(x != "TK"), "timeout" => Lbl::PollTimeout, _ => Lbl::PollIntr },
+      "readK" => Lbl::ReadK,
+      _ => Lbl::ReadT
+    }
+  }).collect()
+}
+
+struct Drv {
+  t0: Instant,
+  sched: VecDeque<Lbl>,
+  kq: VecDeque<Option<Event>>, tq: VecDeque<bool>,
+  k_ready: bool, t_ready: bool,
+  ended: bool,            // end-of-device has been queued
+  log: Vec<Value>,
+  shadow: Mapper, fresh: Mapper, layout: Layout,
+  in_tab: bool,
+  calls: usize, fault: usize, cap: usize,
+  sleep: String,          // how TimedOut answers to timed polls behave: "no" | "yes" | "over"
+  intr_ok: bool,          // no two interruptions without a device report in between (the loop sleeps 4 s by design)
+  arr_k: Vec<Value>, arr_t: Vec<Value>   // arrivals delivered since the last logged call
+}
+
+impl Drv {
+  fn us(&self) -> u64 { self.t0.elapsed().as_micros() as u64 }
+  fn arrive_k(&mut self, e: Option<Event>) {
+    if self.ended { return; }           // nothing arrives after end-of-device
+    self.arr_k.push(match &e { Some(e) => jev(e), None => json!({"t": "E", "k": ""}) });
+    if e.is_none() { self.ended = true; }
+    self.kq.push_back(e); self.k_ready = true;
+  }
+  fn arrive_t(&mut self, on: bool) {
+    self.arr_t.push(json!(if on { "On" } else { "Off" }));
+    self.tq.push_back(on); self.t_ready = true;
+  }
+  // deliver the arrivals the schedule places before the next poll / read label
+  fn deliver_arrivals(&mut self) {
+    loop {
+      match self.sched.front() {
+        Some(Lbl::ArrK(_)) => { if let Some(Lbl::ArrK(e)) = self.sched.pop_front() { self.arrive_k(e); } },
+        Some(Lbl::ArrT(_)) => { if let Some(Lbl::ArrT(b)) = self.sched.pop_front() { self.arrive_t(b); } },
+        _ => break
+      }
+    }
+  }
+  fn begin(&mut self, c: &str) -> (Value, bool) {
+    self.calls += 1;
+    let faulty = self.fault != 0 && self.calls == self.fault;
+    (json!({"c": c, "n": self.calls, "tin": self.us()}), faulty || self.calls > self.cap)
+  }
+  fn end(&mut self, mut rec: Value) {
+    rec["arrK"] = Value::Array(std::mem::take(&mut self.arr_k));
+    rec["arrT"] = Value::Array(std::mem::take(&mut self.arr_t));
+    rec["tout"] = json!(self.us());
+    self.log.push(rec);
+  }
+  fn errmsg(&self) -> String {
+    if self.calls > self.cap { format!("harness: more than {} driver calls", self.cap) } else { format!("injected failure of driver call {}", self.calls) }
+  }
+}
+
+fn noref() -> Value { json!({"ev": [], "rep": {"kind": "NoChange"}}) }
+
+impl ScriptedDriver for Drv {
+  fn register_poll(&mut self) -> Result<(), String> {
+    let (mut rec, fail) = self.begin("register");
+    rec["res"] = json!(if fail { "err" } else { "ok" });
+    if fail { rec["err"] = json!(self.errmsg()); }
+    self.end(rec);
+    if fail { Err(self.errmsg()) } else { Ok(()) }
+  }
+
+  fn poll(&mut self, timeout: Option<Duration>) -> Result<VPoll, String> {
+    let (mut rec, fail) = self.begin("poll");
+    rec["timeout"] = json!(timeout.map(|d| d.as_micros() as i64).unwrap_or(-1));
+    if fail {
+      rec["res"] = json!("err"); rec["devs"] = json!([]); rec["err"] = json!(self.errmsg());
+      self.end(rec);
+      return Err(self.errmsg());
+    }
+    // follow the schedule up to its next poll label; reads the loop did not make are skipped
+    let answer: VPoll;
+    loop {
+      self.deliver_arrivals();
+      match self.sched.pop_front() {
+        Some(Lbl::ReadK) | Some(Lbl::ReadT) => continue,
+        Some(Lbl::PollIntr) if self.intr_ok => { self.intr_ok = false; answer = VPoll::Interrupted; break; },
+        Some(Lbl::PollIntr) => continue,
+        Some(Lbl::PollTimeout) if !(self.k_ready || self.t_ready) => {
+          if let Some(t) = timeout {
+            match self.sleep.as_str() { "yes" => std::thread::sleep(t), "over" => std::thread::sleep(t + Duration::from_micros(2500)), _ => () }
+          }
+          answer = VPoll::TimedOut; break;
+        },
+        Some(Lbl::PollTimeout) => { answer = self.report(true); break; },
+        Some(Lbl::PollDev(korder)) => {
+          if self.k_ready || self.t_ready { answer = self.report(korder); break; } else { continue; }
+        },
+        Some(Lbl::ArrK(_)) | Some(Lbl::ArrT(_)) => unreachable!(),
+        None => {
+          // schedule exhausted: the keyboard goes away, so that the loop terminates
+          if !self.ended { self.arrive_k(None); }
+          if self.k_ready || self.t_ready { answer = self.report(true); } else { answer = VPoll::TimedOut; }
+          break;
+        }
+      }
+    }
+    match &answer {
+      VPoll::Devices(ds) => { rec["res"] = json!("dev"); rec["devs"] = json!(ds.iter().map(|k| if *k { "K" } else { "T" }).collect::<Vec<_>>()); },
+      VPoll::TimedOut => { rec["res"] = json!("timeout"); rec["devs"] = json!([]); },
+      VPoll::Interrupted => { rec["res"] = json!("intr"); rec["devs"] = json!([]); }
+    }
+    self.end(rec);
+    Ok(answer)
+  }
+
+  fn next_keyboard(&mut self) -> Result<VNext<Event>, String> {
+    let (mut rec, fail) = self.begin("kbd");
+    rec["e"] = json!({"t": "-", "k": ""}); rec["ref"] = noref(); rec["ref2"] = noref();
+    if fail { rec["res"] = json!("err"); rec["err"] = json!(self.errmsg()); self.end(rec); return Err(self.errmsg()); }
+    self.deliver_arrivals();
+    if let Some(Lbl::ReadK) = self.sched.front() { self.sched.pop_front(); }
+    let r = match self.kq.front() {
+      None => { rec["res"] = json!("busy"); VNext::Busy },
+      Some(None) => { rec["res"] = json!("end"); VNext::End },
+      Some(Some(_)) => {
+        let e = self.kq.pop_front().unwrap().unwrap();
+        rec["res"] = json!("one"); rec["e"] = jev(&e);
+        if !self.in_tab {
+          let a = self.shadow.step(e.clone());
+          let b = self.fresh.step(e.clone());
+          rec["ref"] = json!({"ev": jevs(&a.events), "rep": jrep(&a.repeat)});
+          rec["ref2"] = json!({"ev": jevs(&b.events), "rep": jrep(&b.repeat)});
+        }
+        VNext::One(e)
+      }
+    };
+    self.end(rec);
+    Ok(r)
+  }
+
+  fn next_tablet(&mut self) -> Result<VNext<bool>, String> {
+    let (mut rec, fail) = self.begin("tab");
+    rec["on"] = json!(false); rec["ref"] = json!({"ev": []});
+    if fail { rec["res"] = json!("err"); rec["err"] = json!(self.errmsg()); self.end(rec); return Err(self.errmsg()); }
+    self.deliver_arrivals();
+    if let Some(Lbl::ReadT) = self.sched.front() { self.sched.pop_front(); }
+    let r = match self.tq.pop_front() {
+      None => { rec["res"] = json!("busy"); VNext::Busy },
+      Some(on) => {
+        self.in_tab = on;
+        let evs = self.shadow.release_all();
+        self.fresh = Mapper::for_layout(&self.layout);     // "resumes as from a fresh start"
+        rec["res"] = json!("one"); rec["on"] = json!(on); rec["ref"] = json!({"ev": jevs(&evs)});
+        VNext::One(on)
+      }
+    };
+    self.end(rec);
+    Ok(r)
+  }
+
+  fn send(&mut self, evs: &Vec<Event>) -> Result<(), String> {
+    let (mut rec, fail) = self.begin("send");
+    rec["evs"] = jevs(evs);
+    rec["res"] = json!(if fail { "err" } else { "ok" });
+    if fail { rec["err"] = json!(self.errmsg()); }
+    self.end(rec);
+    if fail { Err(self.errmsg()) } else { Ok(()) }
+  }
+}
+
+impl Drv {
+  // poll reports the flagged devices and clears their flags (edge-triggered)
+  fn report(&mut self, korder: bool) -> VPoll {
+    let mut d = vec![];
+    if self.k_ready { d.push(true); }
+    if self.t_ready { d.push(false); }
+    if !korder { d.reverse(); }
+    self.k_ready = false; self.t_ready = false; self.intr_ok = true;
+    VPoll::Devices(d)
+  }
+}
+
+fn run_one(id: &str, layout: &Layout, labels: &[Lbl], fault: usize, sleep: &str, out: &mut dyn Write) -> usize {
+  let mut d = Drv {
+    t0: Instant::now(), sched: labels.iter().cloned().collect(), kq: VecDeque::new(), tq: VecDeque::new(),
+    k_ready: false, t_ready: false, ended: false, log: vec![],
+    shadow: Mapper::for_layout(layout), fresh: Mapper::for_layout(layout), layout: layout.clone(), in_tab: false,
+    calls: 0, fault, cap: 400 + 20 * labels.len(), sleep: sleep.to_string(), intr_ok: true, arr_k: vec![], arr_t: vec![]
+  };
+  let r = std::panic::catch_unwind(std::panic::AssertUnwindSafe(|| run_one_device(&mut d, layout.clone())));
+  writeln!(out, "{}", json!({"c": "reset", "id": id, "layout": jlayout(layout), "fault": fault, "sleep": sleep})).unwrap();
+  for l in &d.log { writeln!(out, "{}", l).unwrap(); }
+  let ret = match r {
+    Ok(Ok(())) => json!({"c": "ret", "ok": true, "err": "", "panic": false}),
+    Ok(Err(e)) => json!({"c": "ret", "ok": false, "err": e, "panic": false}),
+    Err(e) => json!({"c": "ret", "ok": false, "err": panic_msg(e), "panic": true})
+  };
+  writeln!(out, "{}", ret).unwrap();
+  d.calls
+}
+
+// {id, layout, sched, sleep, faults}: faults = 0 (none) | k | "all" (a fault-free run, then one run per call index)
+pub fn cmd_loop(path: &str) {
+  let out = std::io::stdout();
+  let mut out = std::io::BufWriter::new(out.lock());
+  for c in read_ndjson(path) {
+    let layout = playout(&c["layout"]).unwrap_or_else(|e| { eprintln!("bad layout: {}", e); std::process::exit(2) });
+    let labels = parse_labels(&c["sched"]);
+    let id = c["id"].as_str().map(|s| s.to_string()).unwrap_or_else(|| c["id"].to_string());
+    let sleep = c["sleep"].as_str().unwrap_or("no").to_string();
+    if c["faults"].as_str() == Some("all") {
+      let n = run_one(&id, &layout, &labels, 0, &sleep, &mut out);
+      for k in 1..=n { run_one(&format!("{}/f{}", id, k), &layout, &labels, k, &sleep, &mut out); }
+    } else {
+      let k = c["faults"].as_u64().unwrap_or(0) as usize;
+      let tid = if k == 0 { id.clone() } else { format!("{}/f{}", id, k) };
+      run_one(&tid, &layout, &labels, k, &sleep, &mut out);
+    }
+  }
+}
